@@ -217,6 +217,9 @@ func (x *Exec) copyModel(fr *frame, s *State, dst, src Value) Value {
 // (ok=false: no model).
 func (e *Engine) modelEffect(fn *ssa.Function) ([]Sort, bool) {
 	k := e.fnKey(fn)
+	if (strings.HasPrefix(k, "(*atomic.") && strings.HasSuffix(k, ").Load")) || strings.HasPrefix(k, "atomic.Load") {
+		return nil, true // loads write nothing
+	}
 	switch {
 	case strings.HasPrefix(k, "(*sync.Mutex)."), strings.HasPrefix(k, "(*sync.RWMutex)."), strings.HasPrefix(k, "(*sync.WaitGroup)."):
 		return nil, true
